@@ -29,9 +29,11 @@ pub enum Workload {
     AfterReady,
     /// wakers outliving the subject, clone/drop churn
     WakerLife,
+    /// the task waker changes between polls; wakes land between polls; tiny populations
+    TaskSwap,
 }
 
-pub const ALL_WORKLOADS: [Workload; 11] = [
+pub const ALL_WORKLOADS: [Workload; 12] = [
     Workload::Generic,
     Workload::Budget,
     Workload::Groups,
@@ -43,6 +45,7 @@ pub const ALL_WORKLOADS: [Workload; 11] = [
     Workload::Stall,
     Workload::AfterReady,
     Workload::WakerLife,
+    Workload::TaskSwap,
 ];
 
 const MSB: usize = !(usize::MAX >> 1);
@@ -147,6 +150,8 @@ struct Weights {
     after_ready: u64,
     freeze: u64,
     quiesce: u64,
+    /// percentage of polls that carry a task waker never used before
+    fresh_pct: u64,
 }
 
 fn class_weights(class: Class, ordered: bool) -> Weights {
@@ -163,6 +168,7 @@ fn class_weights(class: Class, ordered: bool) -> Weights {
         cancel: 1,
         freeze: 2,
         quiesce: 1,
+        fresh_pct: 25,
         ..Weights::default()
     };
     match class {
@@ -247,10 +253,10 @@ fn pick_op(r: &mut Rng, w: &Weights, m: &BehMix, src: bool) -> Op {
                 behs: (0..n).map(|_| gen_beh(r, m, src)).collect(),
             }
         }
-        4 => Op::Poll { fresh: r.chance(1, 4) },
+        4 => Op::Poll { fresh: r.chance(w.fresh_pct, 100) },
         5 => Op::PollMany {
             max: r.range(2, 12) as u16,
-            fresh: r.chance(1, 5),
+            fresh: r.chance(w.fresh_pct, 100),
         },
         6 => Op::Drive { max: r.range(2, 16) as u16 },
         7 => Op::Ready { sel, delay: r.chance(1, 3) },
@@ -318,7 +324,7 @@ fn base_config(subject: SubjectKind, workload: Workload) -> Config {
 pub fn applies(workload: Workload, s: SubjectKind) -> bool {
     use SubjectKind::*;
     match workload {
-        Workload::Generic | Workload::Budget | Workload::WakerLife | Workload::StaleBacklog => true,
+        Workload::Generic | Workload::Budget | Workload::WakerLife | Workload::StaleBacklog | Workload::TaskSwap => true,
         Workload::Groups => matches!(s, FU | FO | MU),
         Workload::Starve => !matches!(s, JA | TJA),
         Workload::Oscillate => matches!(s, FUB | FU | FO | MB | MU | BU | TBU | FEC | JA | TJA),
@@ -675,6 +681,40 @@ pub fn generate(workload: Workload, subject: SubjectKind, seed: u64) -> (Config,
             w.ready *= 2;
             w.drive *= 2;
         }
+        Workload::TaskSwap => {
+            w.fresh_pct = 70;
+            w.poll *= 2;
+            w.wake *= 3;
+            w.ready *= 2;
+            w.deliver *= 2;
+            w.cancel = 0;
+            m.p_ready = 15;
+            match class {
+                Class::Collection | Class::Merge => {
+                    if !subject.bounded() {
+                        cfg.ctor = if subject == SubjectKind::MU { Ctor::New } else { Ctor::WithCapacity };
+                        cfg.cap = r.range(1, 2) as usize;
+                        cfg.initial.clear();
+                    } else if subject != SubjectKind::MB {
+                        cfg.ctor = Ctor::New;
+                        cfg.initial.clear();
+                        cfg.cap = r.range(1, 6) as usize;
+                    }
+                    for _ in 0..r.range(1, 5) {
+                        trace.push(Op::Push { beh: gen_beh(r, &m, src), how: PushHow::Back });
+                    }
+                }
+                Class::Adapter => {
+                    cfg.cap = r.range(1, 5) as usize;
+                }
+                Class::Join => {
+                    let n = r.range(1, 5) as usize;
+                    cfg.initial = (0..n).map(|_| gen_beh(r, &m, false)).collect();
+                    cfg.cap = n;
+                }
+            }
+            n_ops = r.range(8, 60) as usize;
+        }
         Workload::WakerLife => {
             w.clonew *= 6;
             w.dropw *= 4;
@@ -716,6 +756,7 @@ pub fn generate(workload: Workload, subject: SubjectKind, seed: u64) -> (Config,
                 clonew: 4,
                 dropw: 4,
                 deliver: 3,
+                fresh_pct: 0,
                 ..Weights::default()
             };
         }
